@@ -19,6 +19,7 @@ func init() {
 				{K: "start", I: 0}, {K: "overwrite", I: 0}, {K: "setrto", Arg: 1},
 				{K: "tick", Arg: 0}, {K: "tick", Arg: 1}, {K: "tick", Arg: 2}, {K: "tick", Arg: 3},
 				{K: "resp", I: 0}, {K: "failwrite"}, {K: "close"},
+				{K: "garbage", Arg: 3}, // a datagram with A's id whose first attribute overruns: dropped, the schedule goes on
 			}
 			eps := []string{"drain+close", "close"}
 			cliHistories(c, "C11", cliOpts{MsgSize: []int{2052}}, alpha, depth, eps, "H")
@@ -29,7 +30,7 @@ func init() {
 			cliHistories(c, "C11", cliOpts{MsgSize: []int{24}, StaleFields: true}, alpha, depth-2, eps, "Hstale")
 			// time scales: early ticks (the collector fires between deadlines), and RTOs of 2 minutes, 100 and 250 years
 			// (deadlines beyond what a 64-bit nanosecond count since 1970 can hold)
-			slow := []cliEv{{K: "start", I: 0}, {K: "tick", Arg: 4}, {K: "tick", Arg: 5}, {K: "tick", Arg: 0}, {K: "tick", Arg: 1}, {K: "resp", I: 0}, {K: "failwrite"}, {K: "failwrite", Arg: 1}}
+			slow := []cliEv{{K: "start", I: 0}, {K: "tick", Arg: 4}, {K: "tick", Arg: 5}, {K: "tick", Arg: 0}, {K: "tick", Arg: 1}, {K: "resp", I: 0}, {K: "failwrite"}, {K: "failwrite", Arg: 1}, {K: "garbage", Arg: 2}, {K: "garbage", Arg: 4}}
 			cliHistories(c, "C11", cliOpts{MsgSize: []int{2052}}, slow, depth, eps, "Hearly")
 			// a clock that does not start on a round number (deadlines then fall between the ticks of any coarser grid)
 			cliHistories(c, "C11", cliOpts{ClockOffset: 2300001}, slow, depth-1, eps, "Hoffset")
